@@ -18,10 +18,10 @@ LEVEL_TEXT = (
     "2n; halton() visits the consecutive indices n_start+1 .. n_start+sample_size and stores index i in row i-1-n_start; "
     "the cursor (and the R-sequence offset) are re-drawn from the sampler's own generator on every seed reset after the "
     "base-class reseed; start range folds to [20, 2^16); R-sequence scalars: alpha_k = phi^-k for k=1..d, points "
-    "(offset + n*alpha) mod 1, phi iterated as (1+phi)^(1/(d+1)) from 2.0 to a fixed point. The digit expansion itself "
+    "(offset + n*alpha) mod 1, phi iterated as (1+phi)^(1/(d+1)) from 2.0 to a fixed point. The digit loop of halton() must be driven by the running quotient (a round count fixed beforehand from a floating-point logarithm is a finding), and the cache of primes must be extended from a stateful iterator created once (iterator protocol or generator object - not a restartable iterable). The digit arithmetic itself "
     "and the prime sieve are numerical/algorithmic clauses that are not decided."
 )
-TECHNIQUE = "linear normal forms of cursor arithmetic + must-pass-through CFG queries + constant folding"
+TECHNIQUE = "linear normal forms of cursor arithmetic + canonical loop-header reading + must-pass-through CFG queries + constant folding + iterator-protocol (typestate) rule for the prime stream"
 
 HS = "black_it.samplers.halton:HaltonSampler"
 RS = "black_it.samplers.r_sequence:RSequenceSampler"
